@@ -11,6 +11,7 @@ are evaluated on the implementation by the harness; the flat specification is co
 -/
 import Drivers.Common
 import RioModel.Model.RouterJson
+import RioModel.Model.RouterTreeParse
 open Lean Rio.Router
 
 def prioJson (o : Option Route) : Json :=
@@ -32,6 +33,19 @@ def handle (j : Json) : Except String Json := do
                 ("ts", J.ids (sortedIds (rawRoutesOfList (S.trace E q)))),
                 ("m", J.ids (sortedIds (S.matchReq E q))),
                 ("fp", prioJson tr.2), ("gp", prioJson (S.getRoute E q))])
+  -- the same through the tower over the REAL regex-tree model (tree traces = `Item.trace` converted by
+  -- `tree_trace_to_trace`); it must agree with the specification-level model
+  let T := tenvOf cfg
+  let O := towerTOps T
+  let ST := RouterG.build O R
+  let mt := qs.map (fun q =>
+    let tr := RouterG.getTrace O ST q
+    Json.mkObj [("t", J.ids (sortedIds tr.1)),
+                ("ts", J.ids (sortedIds (rawRoutesOfList (RouterG.trace O ST q)))),
+                ("m", J.ids (sortedIds (RouterG.matchReq O ST q))),
+                ("fp", prioJson tr.2), ("gp", prioJson (RouterG.getRoute O ST q))])
+  if Json.arr mt.toArray != Json.arr m.toArray then
+    throw s!"tree-level model {Json.compress (Json.arr mt.toArray)} differs from the specification-level model {Json.compress (Json.arr m.toArray)}"
   return Json.mkObj [("m", Json.arr m.toArray)]
 
 def main : IO Unit := Drv.run handle
